@@ -198,6 +198,50 @@ Definition op_risky (sy : system) (o : json) : bool :=
                       end) (all_facts sy)
   else false.
 
+(** Executable form of the deleteWith closure (the spec of C08). *)
+Definition dw_names_b (fact : json) (x : string) : bool :=
+  match jget "deleteWith" fact with
+  | Some (JArr l) => mem_json (JStr x) l
+  | _ => false
+  end.
+
+Fixpoint clo_iter (fuel : nat) (facts : list (string * json)) (set : list string) : list string :=
+  match fuel with
+  | O => set
+  | S f =>
+      let new := map fst (filter (fun kv => negb (mem_str (fst kv) set) &&
+                                            existsb (dw_names_b (snd kv)) set) facts) in
+      match new with
+      | [] => set
+      | _ => clo_iter f facts (set ++ new)%list
+      end
+  end.
+
+(** After a successful removal of [id]: the ids that must remain. *)
+Definition spec_remaining (facts : list (string * json)) (id : string) : list string :=
+  let clo := clo_iter (S (length facts)) facts [id] in
+  filter (fun j => negb (mem_str j clo)) (map fst facts).
+
+Definition any_expired (s : state) (now : Z) : bool :=
+  existsb (fun kv => fact_expired (snd kv) now) (st_facts s).
+
+(** Judge a removal against the closure spec: (bad?, known-finding ids). *)
+Definition judge_removal (sy0 sy' : system) (o : json) (now : Z) : bool * list string :=
+  let name := jfS "loc" o in
+  match sys_get sy0 name, sys_get sy' name with
+  | Some l0, Some l1 =>
+      let s0 := l_state l0 in
+      if any_expired s0 now then (false, [])
+      else
+        let id := jfS "id" o in
+        let expected := spec_remaining (st_facts s0) id in
+        let got := map fst (st_facts (l_state l1)) in
+        let got_store := map fst (st_store (l_state l1)) in
+        if list_eqb String.eqb expected got && list_eqb String.eqb expected got_store then (false, [])
+        else (true, if is_var id || existsb (fun kv => is_var (fst kv)) (st_facts s0) then ["D14"] else [])
+  | _, _ => (false, [])
+  end.
+
 Record acc := mkAcc {
   a_sys : system;
   a_k : Z;
@@ -236,7 +280,9 @@ Definition step_acc (a : acc) (o : json) : acc :=
       | Some (sy', m, amb) =>
           (* judge reads against the index-free specification *)
           let '(spec_bad, kfs) :=
-            if is_read_op (jfS "op" o) && negb amb then
+            if (String.eqb (jfS "op" o) "remfact" || String.eqb (jfS "op" o) "remrule") && negb amb && jfB "ok" m
+            then judge_removal sy0 sy' o t
+            else if is_read_op (jfS "op" o) && negb amb then
               let '(_, sm) := run_op (as_linear sy0) o t in
               if same_res sm obs then (false, [])
               else
